@@ -616,7 +616,31 @@ def r43(orig, rule):
     return out
 
 
+def r44(orig, rule):
+    # PREFIX E.iter().map(|X| BODY).collect() SUFFIX   (element type T from the rule argument; PREFIX e.g. `field:`, SUFFIX e.g. `,`)
+    #   ->  PREFIX { let mut __v: Vec<T> = Vec::new(); for X in E.iter() { __v.push(BODY); } __v } SUFFIX
+    s = norm(orig)
+    ty = rule.split(None, 1)[1]
+    m = _m(r'((?:%s : )?)(.+?) \. iter \( \) \. map \( \| (%s) \| (.+) \) \. collect \( \)((?: ,)?)' % (ID, ID), s)
+    pre, e, x, body, post = m.groups()
+    return '%s{ let mut __v: Vec<%s> = Vec::new(); for %s in %s.iter() { __v.push(%s); } __v }%s' % (pre, ty, x, e, body, post)
+
+
+def r45(orig, rule):
+    # Y.iter().copied().collect::<D>()   ->  { let mut __d: D = D::new(); for __b in Y.iter() { __d.push_back(*__b); } __d }
+    #   (D a deque type with new/push_back; the items of Y are pushed in order)
+    s = norm(orig)
+    m = re.search(r'(%s) \. iter \( \) \. copied \( \) \. collect :: < (.+?) (>+) \( \)' % ID, s)
+    if not m:
+        raise NoMatch('no iter().copied().collect::<D>()')
+    y, d, close = m.groups()
+    d = d + ' >' * (len(close) - 1)
+    dn = re.sub(r' < .*$', '', d)
+    return s[:m.start()] + '{ let mut __d: %s = %s::new(); for __b in %s.iter() { __d.push_back(*__b); } __d }' % (d, dn, y) + s[m.end():]
+
+
 GENERATORS = {
+    'R44': r44, 'R45': r45,
     'R40': r40, 'R41': r41, 'R42': r42, 'R43': r43,
     'R39': r39,
     'R34': r34, 'R35': r35, 'R35t': r35t, 'R36': r36, 'R37': r37,
